@@ -6,6 +6,7 @@ import (
 	"go/constant"
 	"go/token"
 	"go/types"
+	"os"
 	"sort"
 	"strings"
 )
@@ -331,27 +332,28 @@ func ruleConv(c *Ctx) {
 			c.R.Anchor("conv." + fn)
 			return
 		}
-		var loop *ast.ForStmt
-		inspectNoLit(fd.Body, func(x ast.Node) bool {
-			if f, ok := x.(*ast.ForStmt); ok && loop == nil {
-				loop = f
+		// the loop over the later elements, however it is written (counted from 1, or range xs[1:])
+		var loop *absLoop
+		loops := c.absLoops(fd.Body, c.localDefs(fd.Body))
+		for i := range loops {
+			if len(c.callsTo(loops[i].body, "conv.assertTypeEquals")) > 0 && loop == nil {
+				loop = &loops[i]
 			}
-			return true
-		})
+		}
 		ok := false
-		why := "no loop from element 1"
+		why := "no loop over the later elements that calls assertTypeEquals"
 		if loop != nil {
-			init, _ := loop.Init.(*ast.AssignStmt)
-			startsAt1 := init != nil && c.constOf(init.Rhs[0]) != nil && constant.Compare(c.constOf(init.Rhs[0]), token.EQL, constant.MakeInt64(1))
+			k, known := loop.startsAt(c.Prog)
+			startsAt1 := known && k == 1
 			n := 0
-			for _, st := range loop.Body.List { // top-level statements of the loop body only: unconditional
+			for _, st := range loop.body.List { // top-level statements of the loop body only: unconditional
 				if es, ok := st.(*ast.ExprStmt); ok {
 					if ce, ok := es.X.(*ast.CallExpr); ok && c.calleeName(ce) == "conv.assertTypeEquals" {
 						n++
 					}
 				}
 			}
-			total := len(c.callsTo(loop.Body, "conv.assertTypeEquals"))
+			total := len(c.callsTo(loop.body, "conv.assertTypeEquals"))
 			ok = startsAt1 && n == wantAsserts && total == wantAsserts
 			why = fmt.Sprintf("starts at 1: %v; unconditional assertTypeEquals in the loop: %d of %d expected (total %d)", startsAt1, n, wantAsserts, total)
 		}
@@ -373,17 +375,16 @@ func ruleConv(c *Ctx) {
 	a, b := c.FuncDecl("conv", "typeEnvOfMap"), c.FuncDecl("conv", "valEnvOfMap")
 	if a != nil && b != nil {
 		norm := func(fd *ast.FuncDecl) string {
-			return sxWith(fd.Body.List, func(n ast.Node) (string, bool) {
-				if id, ok := n.(*ast.Ident); ok {
-					switch id.Name {
-					case "valOfRV":
-						return "typeOfRV", true
-					case "val":
-						return "types", true
-					}
-				}
-				return "", false
-			})
+			sigs, ok := c.pathSigs(fd, fd.Body, true)
+			if !ok {
+				return "?" + fd.Name.Name
+			}
+			r := strings.NewReplacer("conv.valOfRV", "conv.typeOfRV", "val.NewEnv", "types.NewEnv", "val.Env.", "types.Env.", "*val.Env", "*types.Env")
+			return r.Replace(strings.Join(sigs, "\n"))
+		}
+		if os.Getenv("YAE_DEBUG") != "" {
+			fmt.Println("A:", norm(a))
+			fmt.Println("B:", norm(b))
 		}
 		c.R.Check(norm(a) == norm(b), "conv.typeEnvOfMap", "SIBLING-10 equals valEnvOfMap modulo renaming", a.Pos(), "same traversal of the host map", "the type and value environments of a host map are built differently")
 	}
